@@ -75,8 +75,8 @@ example := C02_chunked_latched_any Ex.headTE C02u.exRest C02u.exT 8 4 100 .get
 The statement as first proposed (`rest = bytesI (pre ++ line ++ eol) ++ post`: the stream is made of
 bytes only up to the terminator) is FALSE: an Interrupted error (`err 0`) in the stream is retried
 by std's `read_until` / `read_exact` and never seen by the decoder, so a clean end is (rightly)
-reported on `Interrupted, "0\r\n\r\n"`. `C02_chunked_clean_end_needs_terminator_refuted` proves the
-negation from that witness; `C02_chunked_clean_end_needs_terminator_partial` is the true statement
+reported on `Interrupted, "0\r\n\r\n"`. `C02_chunked_clean_end_bytes_only_false` proves the
+negation from that witness; `C02_chunked_clean_end_needs_terminator` is the true statement
 (the consumed piece `head` of the stream consists of the bytes `pre ++ line ++ eol` and of
 Interrupted errors only), and `C02_chunked_clean_end_needs_terminator_no_intr` is the original
 conclusion under the hypothesis that the stream holds no Interrupted error. `0 < maxBuf` is needed
@@ -100,7 +100,7 @@ def C02u.intrT : Transport := [.data Ex.headTE.render, .err 0, .data Ex.last.enc
 /-- (U3 as first proposed is false) On the stream `Interrupted, "0\r\n\r\n"` the first read returns
     `Ok(0)` — the error is retried inside std and the body IS complete — but the stream does not
     start with bytes only. -/
-theorem C02_chunked_clean_end_needs_terminator_refuted : ¬ C02u.CleanEndOriginal := by
+theorem C02_chunked_clean_end_bytes_only_false : ¬ C02u.CleanEndOriginal := by
   intro hall
   have hwf : wfT C02u.intrT := by decide +kernel
   have hh : Ex.headTE.WF L := by decide +kernel
@@ -137,7 +137,7 @@ theorem C02_chunked_clean_end_needs_terminator_refuted : ¬ C02u.CleanEndOrigina
     where `head`, once its Interrupted errors are removed, is exactly the bytes `pre ++ line ++ eol`;
     `line` is one `read_line` line (it ends in LF), its content parses (`parseChunkSize`) to 0, and
     `eol` is LF or CRLF. -/
-theorem C02_chunked_clean_end_needs_terminator_partial (h : HeadS) (rest : List Item)
+theorem C02_chunked_clean_end_needs_terminator (h : HeadS) (rest : List Item)
     (t : Transport) (cap maxBuf mh : Nat) (m : Method) (ns : List Nat)
     (hwf : wfT t) (hcap : 0 < cap) (hmb : 0 < maxBuf) (hh : h.WF L)
     (hmh : h.fields.length ≤ mh) (hms : h.fields.length ≤ Headers.maxSize)
@@ -158,7 +158,7 @@ theorem C02_chunked_clean_end_needs_terminator_partial (h : HeadS) (rest : List 
   exact ⟨pre, line, eol, head, post, e1, e2, hl, he⟩
 
 /-- non-vacuity: a complete body (two chunks, last-chunk), then bytes of the next response -/
-example := C02_chunked_clean_end_needs_terminator_partial Ex.headTE C02u.okRest C02u.okT 8 4 100 .get
+example := C02_chunked_clean_end_needs_terminator Ex.headTE C02u.okRest C02u.okT 8 4 100 .get
   [0, 3, 100, 1, 5, 5, 0, 2]
   (by decide +kernel) (by decide) (by decide) (by decide +kernel) (by decide +kernel)
   (by decide +kernel) (by decide +kernel) (by decide +kernel)
@@ -178,7 +178,7 @@ theorem C02_chunked_clean_end_needs_terminator_no_intr (h : HeadS) (rest : List 
       ∀ i (hi : i < ns.length), 0 < ns[i] → evs[i]? = some (.ok []) →
         ∃ (pre line eol : Bytes) (post : List Item), rest = bytesI (pre ++ line ++ eol) ++ post ∧
           (∃ l, stripEol line = some l ∧ parseChunkSize l = .ok 0) ∧ (eol = [10] ∨ eol = [13, 10]) := by
-  obtain ⟨resp, hr, hp⟩ := C02_chunked_clean_end_needs_terminator_partial h rest t cap maxBuf mh m ns
+  obtain ⟨resp, hr, hp⟩ := C02_chunked_clean_end_needs_terminator h rest t cap maxBuf mh m ns
     hwf hcap hmb hh hmh hms hf hflat
   refine ⟨resp, hr, ?_⟩
   intro evs i hi hn hev
@@ -233,9 +233,3 @@ theorem C02_chunked_clean_end_maxbuf_zero :
     omega
 
 end Atto
-#print axioms Atto.C02_chunked_clean_end_maxbuf_zero
-#print axioms Atto.C02_chunked_no_fabrication_any
-#print axioms Atto.C02_chunked_latched_any
-#print axioms Atto.C02_chunked_clean_end_needs_terminator_refuted
-#print axioms Atto.C02_chunked_clean_end_needs_terminator_partial
-#print axioms Atto.C02_chunked_clean_end_needs_terminator_no_intr
